@@ -84,7 +84,7 @@ func (e *Env) resolveT(T types.Type) types.Type {
 var basicTypes = map[string]types.Type{
 	"int8": types.Typ[types.Int8], "int16": types.Typ[types.Int16], "int32": types.Typ[types.Int32], "int64": types.Typ[types.Int64], "int": types.Typ[types.Int],
 	"uint8": types.Typ[types.Uint8], "uint16": types.Typ[types.Uint16], "uint32": types.Typ[types.Uint32], "uint64": types.Typ[types.Uint64], "uint": types.Typ[types.Uint],
-	"byte": types.Typ[types.Uint8], "bool": types.Typ[types.Bool], "string": types.Typ[types.String], "uintptr": types.Typ[types.Uintptr],
+	"float32": types.Typ[types.Float32], "float64": types.Typ[types.Float64], "byte": types.Typ[types.Uint8], "bool": types.Typ[types.Bool], "string": types.Typ[types.String], "uintptr": types.Typ[types.Uintptr],
 }
 
 func (e *Env) lookupType(name string) types.Type {
@@ -470,6 +470,19 @@ func arrayKeySort(s string) string {
 }
 
 func (e *Env) typeArg(x *Expr) types.Type {
+	if x.Op == "un" && x.Name == "*" {
+		return types.NewPointer(e.typeArg(x.Args[0]))
+	}
+	if x.Op == "sel" && x.Args[0].Op == "id" {
+		// pkg.Type
+		if pkg := e.t.eng.findPkg(x.Args[0].Name, e.pkg); pkg != nil {
+			if o := pkg.Scope().Lookup(x.Name); o != nil {
+				if tn, ok := o.(*types.TypeName); ok {
+					return tn.Type()
+				}
+			}
+		}
+	}
 	if x.Op == "id" {
 		if T := e.lookupType(x.Name); T != nil {
 			return T
@@ -538,6 +551,8 @@ func (e *Env) evalCall(x *Expr) SVal {
 		a := e.eval(x.Args[0])
 		b := e.eval(x.Args[1])
 		return SVal{S: app("err.is", a.S, b.S), Sort: "Bool"}
+	case "bitand":
+		return SVal{S: app("bit.and", e.evalInt(x.Args[0]), e.evalInt(x.Args[1])), Sort: "Int"}
 	case "pow2":
 		return SVal{S: app("pow2", e.evalInt(x.Args[0])), Sort: "Int"}
 	case "shl": // shl(v, k) = v * 2^k for 0 <= k <= 255 (mathematical)
